@@ -498,3 +498,29 @@ M('C19', 'tempdir-kept-on-error', DTK,
                         return download_unpack_verify_result;
                     }
                     if let Err(e) = tokio::fs::remove_dir_all(&ancillary_files_temp_dir).await {""", ['tempdir'], 'unverified files stay under the target directory')
+
+# ---------------------------------------------------------------- C20
+SCF = 'mithril-signer/src/services/certifier.rs'
+SSM = 'mithril-signer/src/runtime/state_machine.rs'
+M('C20', 'already-signed-filter-skipped', SCF,
+  """        let not_already_signed_entities = self
+            .signed_beacon_store
+            .filter_out_already_signed_entities(unlocked_signed_entities)
+            .await?;
+
+        Ok(not_already_signed_entities)""", """        Ok(unlocked_signed_entities)""", ['filter'], 'beacons signed again')
+M('C20', 'publish-error-still-marks', SCF,
+  """                    protocol_message,
+                )
+                .await?;
+        } else {""", """                    protocol_message,
+                )
+                .await
+                .ok();
+        } else {""", ['publish:mark'], 'a failed publish is marked as signed')
+M('C20', 'ready-without-can-sign', SSM,
+  '            false => Ok(SignerState::RegisteredNotAbleToSign { epoch }),', '            false => Ok(SignerState::ReadyToSign { epoch }),', ['ready-guard'], 'signing without eligible keys')
+M('C20', 'initializer-saved-under-current-epoch', 'mithril-signer/src/runtime/runner.rs',
+  '                .save_protocol_initializer(epoch_offset_to_recording_epoch, protocol_initializer)', '                .save_protocol_initializer(epoch, protocol_initializer)', ['offset-site'], 'key stored under the wrong epoch')
+M('C20', 'epoch-change-ignored', SSM,
+  '        if current_time_point.epoch > epoch {\n            Ok(EpochStatus::NewEpoch(current_time_point.epoch))', '        if current_time_point.epoch > epoch + 1 {\n            Ok(EpochStatus::NewEpoch(current_time_point.epoch))', ['epoch-changed'], 'keeps signing one epoch too long')
